@@ -236,6 +236,7 @@ struct runner
 	std::map<long long, std::unique_ptr<udps::socket>> udpsocks;
 	std::map<long long, std::unique_ptr<tcps::resolver>> rslvs;
 	std::map<long long, long long> obj_node;
+	std::map<long long, long long> rslv_node;
 	std::map<long long, std::unique_ptr<sim::http_server>> https;
 	std::map<long long, std::unique_ptr<sim::http_proxy>> proxies;
 	std::map<long long, std::unique_ptr<sim::socks_server>> sockss;
@@ -617,7 +618,7 @@ struct runner
 		}
 		else if (c == "acc_close0") accs.at(arg(1))->close();
 		// ---------------- resolver ----------------
-		else if (c == "rslv_new") rslvs[arg(1)].reset(new tcps::resolver(node(arg(2))));
+		else if (c == "rslv_new") { rslv_node[arg(1)] = arg(2); rslvs[arg(1)].reset(new tcps::resolver(node(arg(2)))); }
 		else if (c == "resolve")
 		{
 			long long r = arg(1);
@@ -633,6 +634,11 @@ struct runner
 			});
 		}
 		else if (c == "rslv_cancel") rslvs.at(arg(1))->cancel();
+		else if (c == "rslv_destroy")
+		{
+			long long r = arg(1);
+			rslvs[r].reset(); rslvs[r].reset(new tcps::resolver(node(rslv_node.at(r))));
+		}
 		else if (c == "http_new")
 		{
 			https[arg(1)].reset(new sim::http_server(node(arg(2)), std::uint16_t(arg(3))
